@@ -823,11 +823,11 @@ def _pen_leaves(font, names, relative, out, hmul=1, location=None, key="pen"):
                         ok = False
                         break
                     leaves.append(((key, n, oi, pi, ci, "x2"), "D", int(c2), 2 * (hmul * j if relative else 1)))
+        maxn = max(maxn, j)          # counted for every glyph: the font-wide bounds depend on it on both sides alike
         if not ok:
             nonint += 1
             out.append(((key, n), "I", "non-integer-coordinates", 0))
             continue
-        maxn = max(maxn, j)
         out.extend(leaves)
     return maxn, nonint
 
